@@ -56,7 +56,7 @@ Print Assumptions C02_pad_in_bounds.
 
 Theorem C02_take_in_bounds_on_domain : forall s ind a i, 0 <= a < zlen s ->
   Forall (fun x => 0 <= x < nth (Z.to_nat a) s 0) ind -> nth (Z.to_nat a) s 0 <= 2 ^ 64 ->
-  inb i (shape_take_axis s ind a) -> inb (take_axis_index ind i a) s.
+  inb i (shape_take_axis s ind a) -> inb (take_axis_index s ind i a) s.
 Proof.
   intros s ind a i Ha HF Hw Hi. rewrite (proj1 (take_axis_shape_spec s ind a Ha)) in Hi.
   exact (proj2 (take_axis_elem_spec s ind a i Ha HF Hw Hi)).
@@ -124,16 +124,14 @@ Theorem C02_bounded_results_have_room : forall sk bk s0 s os,
 Proof. exact evaluated_composition_has_room. Qed.
 Print Assumptions C02_bounded_results_have_room.
 
-(* where the code does NOT keep the index inside: negative axis in repeat (no normalisation) *)
-Theorem C02_repeat_negative_axis_refuted : exists s r a i d,
-  pos s /\ 1 <= r /\ - zlen s <= a < 0 /\ np_repeat_axis_shape s r a = Some d /\ inb i d
-  /\ inbb (repeat_axis_index i r a) s = false.
+(* after the fix: commit "negative axis in repeat / take / compress / concatenate": every valid axis keeps the index inside *)
+Theorem C02_repeat_in_bounds : forall s r a i d, pos s -> 1 <= r -> - zlen s <= a < zlen s ->
+  shape_repeat_axis s r a = Val d -> inb i d -> inb (repeat_axis_index i r a) s.
 Proof.
-  exists [2;3], 2, (-1), [0;5], [2;6].
-  split; [apply posb_pos; reflexivity|]. split; [lia|]. split; [cbn; lia|]. split; [reflexivity|].
-  split; [apply inbb_inb; reflexivity | reflexivity].
+  intros s r a i d Hp Hr Ha Hd Hi. destruct (repeat_axis_full s r a i Hp Hr Ha) as [k [_ [H1 [_ H]]]].
+  rewrite H1 in Hd. injection Hd as <-. exact (proj2 (H Hi)).
 Qed.
-Print Assumptions C02_repeat_negative_axis_refuted.
+Print Assumptions C02_repeat_in_bounds.
 
 Example C02_nonvacuous :
   inb [1;5] (shape_tile [2;3] [1;2]) /\ tile_index [2;3] [1;5] = [1;2]
